@@ -36,6 +36,16 @@ def specLen (d : Int) (start stop step : Option Int) : Int :=
   let e2 := if e1 < s2 then s2 else if e1 > d then d else e1
   (e2 - s2 + st - 1) / st
 
+/-- first selected position of `aten::slice.Tensor`: the start wrapped once and clamped to `[0, d]`. -/
+def specStart (d : Int) (start : Option Int) : Int :=
+  let s0 := optI start 0
+  let s1 := if s0 < 0 then s0 + d else s0
+  if s1 < 0 then 0 else if s1 > d then d else s1
+
+/-- the source positions `x.slice(dim, start, end, step)` reads along the axis: `start' + i·step`, `i < length`. -/
+def specIdx (d : Int) (start stop step : Option Int) : List Nat :=
+  (List.range (specLen d start stop step).toNat).map (fun (i : Nat) => (specStart d start + (i : Int) * optI step 1).toNat)
+
 def spec (s : Shape) (dim : Int) (start stop step : Option Int) : Option Shape :=
   if optI step 1 ≤ 0 then none else
   match (if s.length = 0 then none else normAxis s.length dim) with
@@ -388,6 +398,25 @@ def model (s : Shape) (offset d1 d2 : Int) : Option Shape :=
     let start : Int := if offset < 0 then 0 else offset
     let len := modelLen rows cols offset
     some (rest ++ [sliceLen cols start (start + len) 1])
+
+/-- Value level: output element `t` of the graph is `ReduceSum_i (x[i, j] · mask[i, j])` at column `j = start + t`, where the `EyeLike(k=offset)`
+mask is 1 exactly at `j - i = offset`: it is `x[j - offset, j]` if that row exists, and 0 otherwise (`none`). -/
+def modelPos (rows cols offset : Int) (t : Nat) : Option (Int × Int) :=
+  let start : Int := if offset < 0 then 0 else offset
+  let j : Int := start + t
+  let i : Int := j - offset
+  if 0 ≤ i ∧ i < rows ∧ 0 ≤ j ∧ j < cols then some (i, j) else none
+
+/-- PyTorch: `diagonal(x, offset)[t] = x[t, offset + t]` for `offset ≥ 0`, `x[-offset + t, t]` otherwise. -/
+def specPos (offset : Int) (t : Nat) : Int × Int :=
+  if offset ≥ 0 then ((t : Int), offset + t) else (-offset + t, (t : Int))
+
+def modelPositions (rows cols offset : Int) : List (Option (Int × Int)) :=
+  (List.range (sliceLen cols (if offset < 0 then 0 else offset) ((if offset < 0 then 0 else offset) + modelLen rows cols offset) 1)).map
+    (modelPos rows cols offset)
+
+def specPositions (rows cols offset : Int) : List (Option (Int × Int)) :=
+  (List.range (specLen rows cols offset).toNat).map (fun t => some (specPos offset t))
 
 end diagonal
 
